@@ -164,7 +164,32 @@ func (r *runner) offence(st *Step) {
 			c.Send(&hagallpb.Request{Type: hagallpb.MsgType_MSG_TYPE_PING_REQUEST, Timestamp: timestamppb.New(time.Now().Add(time.Duration(o.Skew) * time.Second)), RequestId: c.NextReqID()})
 			r.quiesce()
 		}
+		if o.Then == "stalled" {
+			// ... and it has stopped reading as well: a few relays fill its socket window, the
+			// server's sender blocks in a write, and the idle disconnect must still go through
+			sim.Stats["fault.silent_and_not_reading"]++
+			c.Stall()
+			if w := r.clients[o.Witness]; w != nil && !w.Ended() && wasSession != nil && r.m.conn(o.Witness).Session == wasSession {
+				for i := 0; i < o.N; i++ {
+					w.Send(&hagallpb.CustomMessage{Type: hagallpb.MsgType_MSG_TYPE_CUSTOM_MESSAGE, Timestamp: now(), Body: []byte(fmt.Sprintf("idle-%d-%s", i, strings.Repeat("y", 200)))})
+				}
+				r.quiesce()
+			}
+		}
 		sim.RunFor(idle + idle/4 + time.Second)
+		if o.Then == "stalled" {
+			r.quiesce()
+			// (asserted only while the connection's send queue of 512 cannot fill up with the
+			// server's own sync-clock messages before the idle timeout: a main loop blocked on
+			// its own full queue is backpressure, as in the stall/fail case)
+			syncs := int((idle + idle/4 + time.Second) / r.w.cfg.SyncClock)
+			if syncs+o.N+20 < 400 && c.InnerEntered > 0 && !c.HandleReturned && c.ServePanic == "" {
+				r.v("C08", "idle-not-disconnected", "%s stopped reading and stayed silent for %v (idle timeout %v): its handler has not returned (%s)", c.Label, idle+idle/4+time.Second, idle, strings.Join(sim.Describe(), "; "))
+			}
+			c.Reset() // the client gives up; the rest of the clean-up is judged as usual
+			clientClosed = true
+			r.quiesce()
+		}
 	case "keepalive":
 		// a ping request every timeout/2 for three timeouts: must not be disconnected
 		for i := 0; i < 6 && !c.Ended(); i++ {
@@ -346,7 +371,7 @@ func (r *runner) offence(st *Step) {
 	r.quiesce()
 
 	ended := c.Ended() || clientClosed
-	if o.Kind == "silence" && !c.Ended() {
+	if o.Kind == "silence" && o.Then != "stalled" && !c.Ended() {
 		r.v("C08", "idle-not-disconnected", "%s stayed silent for %v (idle timeout %v) and was not disconnected", c.Label, idle+idle/4+time.Second, idle)
 	}
 	if mustStay && c.Ended() {
